@@ -33,9 +33,10 @@ func pixel2Gray(r, g, b, a uint32) float64 {
 
 // rgb2GrayDefault uses the image.Image interface
 func rgb2GrayDefault(colorImg image.Image, pixels []float64, s int) {
+	min := colorImg.Bounds().Min
 	for i := 0; i < s; i++ {
 		for j := 0; j < s; j++ {
-			pixels[(i*s)+j] = pixel2Gray(colorImg.At(j, i).RGBA())
+			pixels[(i*s)+j] = pixel2Gray(colorImg.At(min.X+j, min.Y+i).RGBA())
 		}
 	}
 }
@@ -55,10 +56,11 @@ func YCbCR2Gray(colorImg *image.YCbCr, pixels []float64) {
 
 func PixelYCnCRGray(img *image.YCbCr, pixels []float64) {
 	s := img.Rect.Max.X - img.Rect.Min.X
+	min := img.Rect.Min
 	for y := 0; y < s; y++ {
 		for x := 0; x < s; x++ {
-			yi := img.YOffset(x, y)
-			ci := img.COffset(x, y)
+			yi := img.YOffset(min.X+x, min.Y+y)
+			ci := img.COffset(min.X+x, min.Y+y)
 
 			yy := img.Y[yi]
 			cb := img.Cb[ci]
@@ -105,9 +107,10 @@ func OldYCbCR2Gray(colorImg *image.YCbCr, pixels []float64, s int) {
 
 // rgb2GrayYCbCR uses *image.RGBA which is signifiantly faster than the image.Image interface.
 func rgb2GrayRGBA(colorImg *image.RGBA, pixels []float64, s int) {
+	min := colorImg.Rect.Min
 	for i := 0; i < s; i++ {
 		for j := 0; j < s; j++ {
-			pixels[(i*s)+j] = pixel2Gray(colorImg.At(j, i).RGBA())
+			pixels[(i*s)+j] = pixel2Gray(colorImg.At(min.X+j, min.Y+i).RGBA())
 		}
 	}
 }
